@@ -199,3 +199,46 @@ def run_alone(fn: Any, args: tuple[Any, ...], timeout: float) -> tuple[str, Any]
         p.join(5)
         return ("timeout", None)
     return ("died", p.exitcode)
+
+
+def fork_run(fn: Any, timeout: float) -> tuple[str, Any]:
+    """Like run_alone, but with a bare os.fork (usable inside daemonic pool workers)."""
+    import pickle
+    import select
+
+    r, w = os.pipe()
+    pid = os.fork()
+    if pid == 0:
+        os.close(r)
+        try:
+            try:
+                payload = pickle.dumps(("ok", fn()))
+            except BaseException:
+                payload = pickle.dumps(("error", traceback.format_exc()))
+            with os.fdopen(w, "wb") as f:
+                f.write(payload)
+        finally:
+            os._exit(0)
+    os.close(w)
+    chunks = []
+    deadline = time.time() + timeout
+    with os.fdopen(r, "rb") as f:
+        while True:
+            left = deadline - time.time()
+            if left <= 0:
+                os.kill(pid, signal.SIGKILL)
+                os.waitpid(pid, 0)
+                return ("timeout", None)
+            ready, _, _ = select.select([f], [], [], min(left, 1.0))
+            if ready:
+                b = f.read1(1 << 20) if hasattr(f, "read1") else f.read()
+                if not b:
+                    break
+                chunks.append(b)
+    os.waitpid(pid, 0)
+    if not chunks:
+        return ("died", None)
+    res = pickle.loads(b"".join(chunks))
+    if res[0] == "error":
+        raise HarnessError(res[1])
+    return res
